@@ -102,6 +102,8 @@ type c06World struct {
 	splitChk  bool          // global checks configured by separate `check` directives
 	shareBias bool
 	useL      bool   // the real stateless check L is configured (global)
+	nested    bool   // b.example is delivered through a nested pipeline (reroute) with a check of its own
+	nchk      *actors.ScriptedCheck
 	lAction   string // its fail_action: reject, quarantine, ignore
 }
 
@@ -178,6 +180,10 @@ func (w *c06World) genScenario() {
 		// two sessions whose senders belong to different source blocks)
 		w.g2, w.xGlobal, w.splitChk, w.twoCl, w.shareBias = true, true, true, true, true
 	}
+	// the b.example destinations hand over to a nested pipeline (`reroute`)
+	// that runs a check N of its own (which never objects): the message
+	// metadata - and so the quarantine flag - is shared with the outer pipeline
+	w.nested = s.T.Choose(st, 3) == 0
 	w.dmarc = s.T.Choose(st, 3) != 0
 	w.dnsDelay = []time.Duration{0, 0, 100 * time.Millisecond, 10 * time.Second}[s.T.Choose(st, 4)]
 	w.genTxs()
@@ -249,6 +255,14 @@ func (w *c06World) build06() error {
 		module.RegisterInstance(c, nil)
 		delete(module.Initialized, n)
 	}
+	w.nchk = &actors.ScriptedCheck{Label: "N"}
+	w.nchk.PlanFor = func(*module.MsgMetadata) *actors.CheckPlan { return &actors.CheckPlan{} }
+	module.RegisterInstance(w.nchk, nil)
+	delete(module.Initialized, "N")
+	toT2 := node("deliver_to", "&t2")
+	if w.nested {
+		toT2 = block("reroute", nil, block("check", nil, node("&N")), node("deliver_to", "&t2"))
+	}
 	global := []config.Node{node("&G")}
 	if w.g2 {
 		global = append(global, node("&G2"))
@@ -281,16 +295,16 @@ func (w *c06World) build06() error {
 		block("source", []string{"origin.example"},
 			block("check", nil, node("&S")),
 			block("destination", []string{"a.example"}, block("check", nil, d1...), node("deliver_to", "&t1")),
-			block("destination", []string{"b.example"}, block("check", nil, node("&D2")), node("deliver_to", "&t2")),
+			block("destination", []string{"b.example"}, block("check", nil, node("&D2")), toT2),
 			rej),
 		block("source", []string{"other.example"},
 			block("check", nil, node("&S2")),
 			block("destination", []string{"a.example"}, node("deliver_to", "&t1")),
-			block("destination", []string{"b.example"}, node("deliver_to", "&t2")),
+			block("destination", []string{"b.example"}, toT2),
 			rej),
 		block("default_source", nil,
 			block("destination", []string{"a.example"}, node("deliver_to", "&t1")),
-			block("destination", []string{"b.example"}, node("deliver_to", "&t2")),
+			block("destination", []string{"b.example"}, toT2),
 			rej),
 	)
 	name := "smtp"
@@ -662,11 +676,21 @@ func (w *c06World) execute(tag string) (byMarker map[string]map[string]*actors.T
 	byMarker = map[string]map[string]*actors.TxRecord{}
 	for n, t := range w.tgts {
 		for _, tx := range t.Records() {
-			if m := marker(tx); m != "" {
+			m := marker(tx)
+			if m == "" {
+				// a delivery that never got a body carries no marker header:
+				// the (unique) sender address names its transaction
+				if ct := w.txByFrom[tx.From]; ct != nil {
+					m = ct.Marker
+				}
+			}
+			if m != "" {
 				if byMarker[m] == nil {
 					byMarker[m] = map[string]*actors.TxRecord{}
 				}
-				byMarker[m][n] = tx
+				if old := byMarker[m][n]; old == nil || tx.Commits > 0 || !old.BodyCall {
+					byMarker[m][n] = tx
+				}
 			}
 		}
 	}
@@ -734,7 +758,7 @@ func RunC06(s *simrt.Sim, a *harness.Args, r *harness.Result) {
 			}
 		}
 	}
-	r.Shape = fmt.Sprintf("lmtp=%v defer=%v xg=%v xd=%v g2=%v 2cl=%v L=%v/%s dmarc=%v/%v|%s", w.lmtp, w.deferRj, w.xGlobal, w.xInD1, w.g2, w.twoCl, w.useL, w.lAction, w.dmarc, w.dnsDelay, w.planShape())
+	r.Shape = fmt.Sprintf("lmtp=%v defer=%v xg=%v xd=%v g2=%v 2cl=%v L=%v/%s nest=%v dmarc=%v/%v|%s", w.lmtp, w.deferRj, w.xGlobal, w.xInD1, w.g2, w.twoCl, w.useL, w.lAction, w.nested, w.dmarc, w.dnsDelay, w.planShape())
 	st := s.Stats()
 	nf := 0
 	for k, v := range st {
